@@ -31,8 +31,11 @@ class Summary:
 
 
 class Effects:
-    def __init__(self, prog):
+    def __init__(self, prog, cut=()):
+        """cut: callee keys through which effects are NOT propagated (call edges taken only when an optional argument
+        is supplied, e.g. charge_at_pH behind `if pH is not None`)"""
         self.prog = prog
+        self.cut = set(cut)
         self.sum = {}
         for f in prog.all_funcs():
             self.sum[f.key] = self._local(f)
@@ -259,7 +262,7 @@ class Effects:
             for s in self.sum.values():
                 for callee, recv, amap, node in s.calls:
                     cs = self.sum.get(callee.key)
-                    if cs is None:
+                    if cs is None or callee.key in self.cut:
                         continue
                     where = s.f.loc(node)
                     # callee's writes to its own receiver
